@@ -1,7 +1,18 @@
 /- driver engine `crash` (C06): persistence model behind the line protocol of go/cmd/harness/eng_crash.go.
-   Node ops and queries are delegated to MW.Drv.Led on a view of the state; wallet operations run the
-   MW.Model.Persist operations; `crashall` enumerates every commit of the history as a crash point ON THE
-   MODEL (crash = keep the store, boot, catch up, continue) and compares with the uninterrupted run. -/
+
+   Division of labour with MW.Drv.Led:
+   * every op this engine does not own is DELEGATED to `Led.step` on a view of the state (so every led op,
+     present or future, works here unchanged, with its model and spec columns);
+   * the ops with persistence semantics (`wallet`, `addr`, `notify`, `recvtx`, `restart`, `boot`) run the
+     MW.Model.Persist operations for the STATE (store × volatile) and `Led.step` on the view for the output
+     and the spec-side bookkeeping (`specChain`, `specPend`, `issued`); the two must agree on success /
+     failure, otherwise the output is prefixed `MODEL-SPLIT` (never seen; it would show as a disagreement);
+   * `crashall` enumerates every commit of the history as a crash point ON THE MODEL (crash = keep the
+     store, boot, catch up, continue) and compares with the uninterrupted run.
+
+   The spec side across a crash: `specChain` / `specPend` (MW.Spec.Pending) are functions of the event
+   history the wallet has seen, i.e. of the PERSISTENT history — a crash or restart loses volatile state
+   only and leaves them alone; the catch-up of `boot` is a sequence of chain moves (one per block). -/
 import MW.Drv.Led
 import MW.Model.Persist
 import MW.Spec.Persist
@@ -10,7 +21,7 @@ open MW MW.Model.Ledger MW.Model.Persist
 
 /-- state without history -/
 structure Core where
-  led : Led.St := {}                       -- used for params / txs / node / specChain / issued names only
+  led : Led.St := {}                       -- params / txs / node / specChain / specPend / issued (store, vol, own, wallets: see `view`)
   P : PStore := {}
   V : PVol := {}
   names : AMap.T (Wid × Nat) Addr := []    -- symbolic name of the address at (wallet, index)
@@ -22,9 +33,13 @@ def Core.env (c : Core) : Env :=
   { p := c.led.p, node := c.led.node,
     derive := fun w n => (AMap.get c.names (w, n)).getD (w ++ "/" ++ toString n) }
 
-/-- the Led view used for queries -/
+/-- the Led view: store and volatile state of the persistence model, keystore view from the key cache -/
 def Core.view (c : Core) : Led.St :=
   { c.led with store := c.P.led, vol := c.V.led, own := ownOf c.V.keys, wallets := walletsOf c.V.keys }
+
+/-- take over what `Led.step` maintains besides store / vol / own / wallets -/
+def Core.absorb (c : Core) (l : Led.St) : Core :=
+  { c with led := { l with store := c.led.store, vol := c.led.vol, own := c.led.own, wallets := c.led.wallets } }
 
 /-- storage-call counts are irrelevant without faults -/
 def nc : Nat := 1
@@ -40,7 +55,8 @@ def caughtUp (c : Core) : Bool :=
 
 def isObservation (a : List String) : Bool :=
   match a with
-  | op :: _ => ["synced", "bal", "abal", "utxos", "sbu", "pend", "addrs", "shist", "bhist", "hsbu", "shistp", "bhistp", "wallets"].contains op
+  | op :: _ => ["synced", "bal", "abal", "utxos", "sbu", "pend", "addrs", "shist", "bhist", "hsbu", "shistp", "bhistp",
+                "wallets", "pins", "pcred", "pgame", "glog", "wseq"].contains op
   | [] => false
 
 /-- Use(w) of the harness: UseWallet unless already current -/
@@ -50,51 +66,59 @@ def useW (c : Core) (w : Wid) : Option Core :=
   | some v => some { c with V := v }
   | none => none
 
+/-- model column of a driver output -/
+def modelCol (out : String) : String := (out.splitOn "\t").headD out
+
+/-- the persistence model and the ledger driver must agree on success / failure of an operation -/
+def agree (ok : Bool) (out : String) : String :=
+  if (modelCol out == "ok") == ok then out else "MODEL-SPLIT " ++ out
+
 /-- one op on the core; third component: the persistent states committed DURING the op, oldest first
     (crash points), each as the core the restarted process would find. -/
 def stepCore (c : Core) (args : List String) : Core × String × List Core :=
   match args with
   | ["wallet", w] =>
+    let (l', out) := Led.step c.view args
     let r := (opCreate nc nc nc w).run none c.P c.V
     if r.ok then
-      let c' := { c with P := r.P, V := r.V, commits := c.commits + r.commits }
-      (c', "ok", [c'])
-    else ({ c with V := r.V }, "err", [])
+      let c' := { (c.absorb l') with P := r.P, V := r.V, commits := c.commits + r.commits }
+      (c', agree true out, [c'])
+    else ({ c with V := r.V }, agree false out, [])
   | ["addr", w, a, cl] =>
     match useW c w with
-    | none => (c, "err", [])
+    | none => (c, agree false (Led.step c.view args).2, [])
     | some c1 =>
       match AMap.get c1.P.ks w with
-      | none => (c1, "err", [])
+      | none => (c1, agree false (Led.step c1.view args).2, [])
       | some r0 =>
         let stk : Bool := cl == "stk"
         -- the issued address gets its symbolic name unless that index was named before
         let names := if (AMap.get c1.names (w, r0.next)).isSome then c1.names else AMap.put c1.names (w, r0.next) a
         let c2 := { c1 with names := names }
+        let (l', out) := Led.step c2.view args
         let r := (opNewAddr c2.env nc nc nc stk).run none c2.P c2.V
         if r.ok then
-          let c' := { c2 with P := r.P, V := r.V, commits := c2.commits + r.commits,
-                              led := { c2.led with issued := c2.led.issued ++ [(c2.env.derive w r0.next, w, stk)] } }
-          (c', "ok", [c'])
-        else ({ c2 with V := r.V }, "err", [])
+          let c' := { (c2.absorb l') with P := r.P, V := r.V, commits := c2.commits + r.commits }
+          (c', agree true out, [c'])
+        else ({ c2 with V := r.V }, agree false out, [])
   | ["notify", b] =>
     match AMap.get c.led.node.known b with
     | none => (c, "bad-op", [])
     | some blk =>
+      let (l', out) := Led.step c.view args
       let r := (opBlock c.env nc blk).run none c.P c.V
-      let onChain : Bool := match c.led.node.blockAt blk.height with | some x => x.id == blk.id | none => false
-      let specChain := if onChain then c.led.node.chain.take (blk.height + 1) else c.led.specChain
-      let c' := { c with P := r.P, V := r.V, commits := c.commits + r.commits, led := { c.led with specChain := specChain } }
-      (c', (if r.ok then "ok" else "err") ++ "\t" ++ (if onChain then "ok" else "err"), if r.ok then [c'] else [])
+      let c' := { (c.absorb l') with P := r.P, V := r.V, commits := c.commits + r.commits }
+      (c', agree r.ok out, if r.ok then [c'] else [])
   | ["recvtx", t] =>
     match AMap.get c.led.txs t with
     | none => (c, "bad-op", [])
     | some tx =>
+      let (l', out) := Led.step c.view args
       let r := recvTx c.env nc nc none tx c.P c.V
-      let c' := { c with P := r.P, V := r.V, commits := c.commits + r.commits }
-      (c', if r.ok then "ok" else "err", if r.commits > 0 then [c'] else [])
+      let c' := { (c.absorb l') with P := r.P, V := r.V, commits := c.commits + r.commits }
+      (c', agree r.ok out, if r.commits > 0 then [c'] else [])
   | ["restart"] =>
-    -- NewWalletManager only: one (empty) Update, fresh volatile state, no Start
+    -- NewWalletManager only: one (empty) Update, fresh volatile state, no Start; the spec side is untouched
     let c' := { c with V := bootVol c.P, commits := c.commits + 1 }
     (c', "ok", [c'])
   | ["boot"] =>
@@ -110,21 +134,33 @@ def stepCore (c : Core) (args : List String) : Core × String × List Core :=
         | some blk =>
           let r := (opBlock cur.env nc blk).run none cur.P cur.V
           if r.ok then
-            let nx := { cur with P := r.P, V := r.V, commits := cur.commits + r.commits }
+            let l' := (Led.step cur.view ["notify", blk.id]).1
+            let nx := { (cur.absorb l') with P := r.P, V := r.V, commits := cur.commits + r.commits }
             mids fuel nx (acc ++ [nx])
           else (cur, false, acc)
     let c0 := { c with V := bootVol c.P, commits := c.commits + 1 }
     let r := start c0.env nc c0.P c0.V
-    let c' := { c0 with P := r.P, V := { r.V with tasks := [] }, commits := c0.commits + r.commits,
-                        led := { c0.led with specChain := if r.ok then c0.led.node.chain else c0.led.specChain } }
     let hasReady := !(readyWallets c0.P.led (walletsOf c0.V.keys)).isEmpty
     if !hasReady && c0.led.node.tipHeight > Gen.Updates.ffGap then
-      -- fast-forward path: no intermediate crash points recorded on the model side
+      -- fast-forward path (no ready wallet: nothing can be pending): the wallet is told the node's chain;
+      -- no intermediate crash points recorded on the model side
+      let led' := if r.ok then { c0.led with specChain := c0.led.node.chain } else c0.led
+      let c' := { c0 with P := r.P, V := { r.V with tasks := [] }, commits := c0.commits + r.commits, led := led' }
       (c', (if r.ok then "ok" else "err") ++ "\tok", [c0, c'])
     else
-      let (_, _, acc) := mids (c0.led.node.tipHeight + 1) c0 [c0]
+      -- the catch-up is one chain move per block (the spec side follows through `Led.step notify`)
+      let (cl, okm, acc) := mids (c0.led.node.tipHeight + 1) c0 [c0]
+      -- SPEC of a restart: afterwards the wallet follows the node's chain — also when the block it was
+      -- synced to has left that chain at the same or a lower height (no block above it to catch up with)
+      let l := cl.led
+      let same := l.specChain.length == l.node.chain.length &&
+        (l.specChain.zip l.node.chain).all (fun p => p.1.id == p.2.id)
+      let l' := if same then l else
+        { l with specPend := Spec.Pending.onChainMoved (Led.specEnv cl.view) l.specChain l.node.chain l.specPend,
+                 specChain := l.node.chain }
+      let c' := { cl with P := r.P, V := { r.V with tasks := [] }, commits := c0.commits + r.commits, led := l' }
       -- spec: the wallet opens and its unfinished work is queued again
-      (c', (if r.ok then "ok" else "err") ++ "\tok", acc)
+      (c', (if r.ok && okm then "ok" else "err") ++ "\tok", acc)
   | ["commits"] => (c, toString c.commits, [])
   -- histories with background work (import / removal): the ledger model does not cover them; their
   -- observations are `rec` ops that only the implementation's twin-vs-crash comparison looks at
@@ -134,28 +170,11 @@ def stepCore (c : Core) (args : List String) : Core × String × List Core :=
   | ["import", w] => (c, if c.imports.contains w then "ok" else "err", [])
   | ["importstep", w] | ["remove", w] | ["removerun", w] =>
     (c, if c.imports.contains w || (AMap.get c.P.ks w).isSome then "ok" else "bad-op", [])
-  | "params" :: _ | "tx" :: _ | "block" :: _ | "submit" :: _ | ["detach"] =>
-    let (l', out) := Led.step c.led args
-    ({ c with led := l' }, out, [])
-  | op :: w :: rest =>
-    if isObservation args then
-      -- observations with a wallet argument go through Use(w)
-      if ["bal", "abal", "utxos", "sbu", "addrs", "shist", "bhist", "hsbu", "shistp", "bhistp"].contains op then
-        match useW c w with
-        | none => (c, if ["bal", "utxos", "addrs", "shist", "bhist"].contains op then "err\terr" else "err", [])
-        | some c1 =>
-          let (_, out) := Led.step c1.view (op :: w :: rest)
-          (c1, out, [])
-      else
-        let (_, out) := Led.step c.view args
-        (c, out, [])
-    else (c, "bad-op", [])
-  | [_] =>
-    if isObservation args then
-      let (_, out) := Led.step c.view args
-      (c, out, [])
-    else (c, "bad-op", [])
-  | _ => (c, "bad-op", [])
+  | _ =>
+    -- everything else belongs to the ledger driver (node ops, queries, and whatever it learns later);
+    -- should such an op change store or volatile state, the persistence state follows
+    let (l', out) := Led.step c.view args
+    ({ (c.absorb l') with P := { c.P with led := l'.store }, V := { c.V with led := l'.vol } }, out, [])
 
 structure St where
   core : Core := {}
@@ -167,31 +186,45 @@ structure St where
 
 def init : St := {}
 
-/-- crash at the persistent state `c` reached during op `i`: boot on the node as it is then, continue
-    with ops i+1 …, compare every comparable observation with the uninterrupted run -/
 def pendingObs (a : List String) : Bool :=
   match a with
-  | op :: _ => ["sbu", "pend", "hsbu", "shistp", "bhistp"].contains op
+  | op :: _ => ["sbu", "pend", "hsbu", "shistp", "bhistp", "pins", "pcred", "pgame"].contains op
   | [] => false
 
-/-- `quiet` = the follower had caught up with the node when the operation containing the commit was
-    over; for the other crash points only the confirmed state is compared (see eng_crash.go) -/
+/-- crash at the persistent state `c` reached during op `i`: boot on the node as it is then, continue
+    with ops i …, compare every comparable observation with the uninterrupted run. Along the crashed
+    path every observation must also satisfy ITS OWN specification (model column = spec column: the
+    pending spec is a function of the event history this run has seen).
+    `quiet` = the follower had caught up with the node when the operation containing the commit was
+    over; for the other crash points only the confirmed state is compared with the uninterrupted run
+    (see eng_crash.go / notes/C06.md). -/
 def replay (st : St) (i : Nat) (c : Core) (quiet : Bool) : Option String :=
-  let c0 := { c with V := bootVol c.P }
-  let r := crash c0.env nc c0.P
-  if !r.ok then some s!"op={i} boot-failed" else
-  let c1 := { c0 with P := r.P, V := { r.V with tasks := [] }, led := { c0.led with specChain := c0.led.node.chain } }
-  let rec go (fuel : Nat) (j : Nat) (cur : Core) : Option String :=
+  let (c1, bootOut, _) := stepCore c ["boot"]
+  if modelCol bootOut != "ok" then some s!"op={i} boot-failed" else
+  -- the notification queue is volatile: blocks the node announced before the crash (`submit` at an
+  -- op < i) are not announced again; Start's catch-up is how the restarted wallet learns about them
+  let announced0 : List String := ((st.hist.toList.take i).zip (st.outs.toList.take i)).filterMap (fun p =>
+    match p.1 with
+    | ["submit", b] => if modelCol p.2 == "ok" then some b else none
+    | _ => none)
+  let rec go (fuel : Nat) (j : Nat) (cur : Core) (announced : List String) : Option String :=
     match fuel with
     | 0 => none
     | fuel + 1 =>
       if j ≥ st.hist.size then none else
       let a := st.hist[j]!
+      let announced := match a with | ["submit", b] => announced.filter (· != b) | _ => announced
+      let lost := match a with | ["notify", b] => announced.contains b | ["rec", "notify", b] => announced.contains b | _ => false
+      if lost then go fuel (j + 1) cur announced else
       let (nx, out, _) := stepCore cur a
-      if !quiet && pendingObs a then go fuel (j + 1) nx else
-      if st.cmp[j]! && out != st.outs[j]! then some s!"op={i} at={j}:{"_".intercalate a} twin={st.outs[j]!} crash={out}"
-      else go fuel (j + 1) nx
-  go (st.hist.size + 1) i c1
+      let cols := out.splitOn "\t"
+      if isObservation a && cols.length == 2 && cols[0]! != cols[1]! then
+        some s!"op={i} at={j}:{"_".intercalate a} crashed-run model={cols[0]!} spec={cols[1]!}"
+      else if !quiet && pendingObs a then go fuel (j + 1) nx announced
+      else if st.cmp[j]! && out != st.outs[j]! then
+        some s!"op={i} at={j}:{"_".intercalate a} twin={st.outs[j]!} crash={out}"
+      else go fuel (j + 1) nx announced
+  go (st.hist.size + 1) i c1 announced0
 
 def step (st : St) (args : List String) : St × String :=
   match args with
